@@ -3,7 +3,7 @@ from lib import core, propgen
 
 ID = 'C13'
 UNITS = ['adjust_intervals', 'merge_intervals', 'interpolate_intervals', 'boundaries']
-TRANSLATORS = ['wrapfuncs']
+TRANSLATORS = ['wrapfuncs', 'intervalfuncs']
 NOT_COVERED = ('the float32 sampling grid of intervals_to_samples is a model input off the exact lattice; np.argsort tie order in '
                'sort_labeled_intervals (correspondence claimed for distinct start times only)')
 ASSUMPTIONS = ['np.maximum/minimum/argwhere/vstack/unique/searchsorted/round(half-even) as modelled']
